@@ -139,6 +139,24 @@ CLAIMED = {
             "Trusts vf/symx/sscalar.py, sympy expand, z3 nlsat; ThermalRelaxationError, QubitChannel and everything about "
             "default.mixed's evolution (PSD, trace, Kraus-sum simulation) is not covered.",
             "DESIGN.md 4 C28", "E2"),
+    "C40": ("proof",
+            "sidecar contracts over the parameter-list view P on the real methods of core/qscript.py (par_info, trainable_params "
+            "getter/setter, num_params, get_operation, get_parameters, data, bind_new_parameters, copy): VCs generated from the "
+            "function ASTs on every run for circuits of enumerated SHAPES with every parameter value, operator identity and "
+            "index symbolic (quantifier-free, z3; counter-models replayed on real tapes); the per-operator bind_new_parameters "
+            "dispatch as a callee contract that is itself checked by running the real dispatch on symbolic parameters for "
+            "every operator configuration of the C10 instance space (Laurent normal form)",
+            "For 9 circuit shapes (0-3 operations with 0-3 parameters, 0-2 measurements with/without parametrised observables; "
+            "13 in the thorough tier) and all values: par_info[k] names the operator, position and slot of parameter k; the "
+            "setter stores exactly the sorted duplicate-free index set and rejects everything outside [0, len(P)); "
+            "get_parameters/get_operation/data follow trainable; bind_new_parameters (increasing indices, the call-site "
+            "precondition) replaces exactly the named parameters, passes untouched operators through, keeps trainable and "
+            "shots, leaves the original untouched; copy in all update combinations gives fresh lists, the documented sharing "
+            "of operators, and trainable indices that are valid for the NEW parameter list; re-bound operators of ~450 "
+            "operator configurations have the matrix/type/wires of the directly constructed operator for all parameter values.",
+            "Size-bounded in circuit shape and operator configuration, complete in values; operators are abstract records in "
+            "part A; decompose/expand preserving trainability is not covered; F2 fixed in repo, F3 (unsorted indices) open.",
+            "DESIGN.md 4 C40", "E1+E2"),
     "C45": ("proof",
             "sidecar contracts over the label-sequence view on the real methods of pennylane/wires.py: label sequences of "
             "SYMBOLIC length over an uninterpreted label sort, python sets as arrays label->Bool, linked by an axiomatic "
